@@ -452,3 +452,9 @@ pub fn ref_crc64(data: &[u8]) -> u64 {
     }
     !crc
 }
+
+/// Stub for `std::fmt::format` (error messages are irrelevant to every property and
+/// formatting machinery is extremely expensive under CBMC).
+pub fn stub_format(_args: std::fmt::Arguments<'_>) -> String {
+    String::new()
+}
